@@ -353,6 +353,12 @@ class Interp:
         else:
             put(hw, zlo, Lin.const(1))          # gap or unknown position
 
+    def note_mutation(self, st, ref, what):
+        """count structural modifications of containers (for "left intact" clauses): ghost cell, if the rule set one up"""
+        g = st.cells.get("ghost:mutations")
+        if isinstance(g, Num):
+            st.cells["ghost:mutations"] = Num(g.e + 1)
+
     def is_zero_value(self, st, v):
         return isinstance(v, Num) and st.sys.const_value(v.e) == 0
 
@@ -1057,7 +1063,7 @@ class Interp:
             if a.view is not None and b.view is not None and a.view[0] == b.view[0]:
                 off = self.join_values(Num(a.view[1]), Num(b.view[1]), sa, sb, phis, name + ".off")
                 view = (a.view[0], off.e)
-            return Seq(ln.e, a.elem, weak_join(a.items, b.items), view)
+            return Seq(ln.e, a.elem, weak_join(a.items, b.items), view, a.src if a.src == b.src else None)
         if isinstance(a, Struct) and isinstance(b, Struct) and a.tag == b.tag:
             f = {}
             for i in set(a.f) & set(b.f):
@@ -1653,7 +1659,7 @@ def rename_value(v, f):
         return Num(v.e.rename(f))
     if isinstance(v, Seq):
         return Seq(v.len.rename(f), v.elem, rename_value(v.items, f) if isinstance(v.items, V) else v.items,
-                   (v.view[0], v.view[1].rename(f)) if v.view is not None else None)
+                   (v.view[0], v.view[1].rename(f)) if v.view is not None else None, src_rename(v.src, f))
     if isinstance(v, Struct):
         return Struct({i: rename_value(x, f) for i, x in v.f.items()}, v.tag)
     if isinstance(v, Enum):
